@@ -23,7 +23,14 @@ var (
 
 func loadPool() {
 	poolKeys = map[string]crypto.Signer{}
+	all := map[string]string{}
 	for name, p := range poolPEM {
+		all[name] = p
+	}
+	for name, p := range poolPEMExtra {
+		all[name] = p
+	}
+	for name, p := range all {
 		b, _ := pem.Decode([]byte(p))
 		if b == nil {
 			panic("keypool: bad PEM for " + name)
